@@ -8,7 +8,8 @@ func vh_C02_framing() {
 	k := 2 // unrolled: every header-level case and up to 2 TLVs; the per-TLV equivalence for any count is vh_C01_decode_induct
 	vxUnwind(k, true)
 	raw := vxRawBuf()
-	m := &Message{Raw: raw}
+	m := vxStaleMessage() // whatever the Message held before (stale fields, stale attribute list)
+	m.Raw = raw
 	err := m.Decode()
 	r := refParse(raw, k)
 	if r.over {
@@ -53,6 +54,27 @@ func vh_C02_lookup() {
 	if m.Decode() != nil {
 		return
 	}
+	vxLookupChecks(m, raw)
+}
+
+// vh_C02_lookup_direct: the same oracle on an attribute list built directly (0..4 entries of
+// symbolic types, so up to four duplicates and a match behind any number of non-matches),
+// independent of the decoder's unwinding bound.
+func vh_C02_lookup_direct() {
+	raw := vxBytes(40, 40)
+	m := &Message{Raw: raw}
+	n := vxChoose(5)
+	for i := 0; i < n; i++ {
+		l := vxLen(4)
+		m.Attributes = append(m.Attributes, RawAttribute{Type: AttrType(vxU16()), Length: uint16(l), Value: raw[8*i : 8*i+l]})
+	}
+	if n == 4 {
+		vxReach("four-attributes")
+	}
+	vxLookupChecks(m, raw)
+}
+
+func vxLookupChecks(m *Message, raw []byte) {
 	t := AttrType(vxU16())
 	n := len(m.Attributes)
 	// oracle: indices of the attributes of type t, in order
